@@ -44,8 +44,8 @@ PopB == << El(1, "concept", "Person", 4, {}),
 PopOf(name) == IF name = "A" THEN PopA ELSE PopB
 
 (* ------------------------------ vocabulary ------------------------------- *)
-P == {"a", "b", "c"}
-All == P \cup {"own"}
+Ps == {"a", "b", "c"}
+All == Ps \cup {"own"}
 RB == {"read", "search", "discover", "export"}
 HB == RB \cup {"read_history"}
 WB == HB \cup {"create", "update", "archive", "tombstone", "purge", "manage_retention", "maintain"}
@@ -267,28 +267,36 @@ Next == /\ ci = 0
         /\ UNCHANGED chunk
 Spec == Init /\ [][Next]_vars
 
-cs == CaseSeq[ci]
-pop == PopOf(cs.pop)
+kase == CaseSeq[ci]
+thePop == PopOf(kase.pop)
 
 \* one record per element, in population order
 ViewOf(cfg, p) ==
   LET gate == Permitted(cfg, p, "read", SpaceRes) IN
-  [i \in 1..Len(pop) |->
-     IF gate /\ MayRead(cfg, p, pop[i])
-     THEN [r |-> TRUE, mask |-> MaskOf(cfg, p, pop[i])]
+  [i \in 1..Len(thePop) |->
+     IF gate /\ MayRead(cfg, p, thePop[i])
+     THEN [r |-> TRUE, mask |-> MaskOf(cfg, p, thePop[i])]
      ELSE [r |-> FALSE, mask |-> {}]]
 
 Expect(cfg, p) ==
   [p |-> p,
    ok |-> Resolved(cfg, p).ok,
    held |-> Held(cfg, p, Interesting),
-   whole |-> Whole(cfg, p),
+   whole |-> Whole(cfg, p) /\ Permitted(cfg, p, "read", SpaceRes),
    view |-> ViewOf(cfg, p)]
 
-Out == [n |-> ci, fam |-> cs.fam, pop |-> cs.pop, mut |-> cs.mut, cfg |-> cs.cfg,
-        elems |-> pop,
-        expect |-> [k \in 1..Len(cs.eval) |-> Expect(cs.cfg, cs.eval[k])]]
+Out == [n |-> ci, fam |-> kase.fam, pop |-> kase.pop, mut |-> kase.mut, cfg |-> kase.cfg,
+        elems |-> thePop,
+        expect |-> [k \in 1..Len(kase.eval) |-> Expect(kase.cfg, kase.eval[k])]]
 
-LawsHold == ci > 0 => Laws(cs.cfg, All, pop)
+LawsHold == ci > 0 => Laws(kase.cfg, All, thePop)
+\* the same laws one by one, so that a violation names the law
+LDefaultDeny == ci > 0 => \A p \in All : DefaultDeny(kase.cfg, p, thePop)
+LInactive    == ci > 0 => \A p \in All : Inactive(kase.cfg, p, thePop)
+LDenyWins    == ci > 0 => \A p \in All : DenyWins(kase.cfg, p, thePop)
+LRevoked     == ci > 0 => \A p \in All : RevokedIsAbsent(kase.cfg, p, thePop)
+LExpired     == ci > 0 => \A p \in All : ExpiredIsAbsent(kase.cfg, p, thePop)
+LWhole       == ci > 0 => \A p \in All : WholeReadsAll(kase.cfg, p, thePop)
+LAttenuation == ci > 0 => Attenuation(kase.cfg, thePop)
 Emit == ci > 0 => PrintT(<<"REPLAY", ToJson(Out)>>)
 =============================================================================
